@@ -675,10 +675,13 @@ package decimal
 //@        roundspec(z, old(addmag(x, y, x.neg == y.neg))*p10(gs), gL, old(addq(x, y)) + 19*gL - gs, false)
 //@   hint[after:uadd#1] bind(gL, ghost_gL)
 //@   hint[after:uadd#1] bind(gs, ghost_gs)
+//@   hint[after:uadd#1] assert(old(addmag(x, y, x.neg == y.neg)) == old(addsum(x, y)))
 //@   hint[after:usub#1] bind(gL, ghost_gL)
 //@   hint[after:usub#1] bind(gs, ghost_gs)
+//@   hint[after:usub#1] assert(old(addmag(x, y, x.neg == y.neg)) == old(subdiff(x, y)))
 //@   hint[after:usub#2] bind(gL, ghost_gL)
 //@   hint[after:usub#2] bind(gs, ghost_gs)
+//@   hint[after:usub#2] !old(abseq(x, y)) ==> assert(old(addmag(x, y, x.neg == y.neg)) == old(subdiff(y, x)))
 //@   panics[nan,C04] old(x.form) == inf && old(y.form) == inf && old(x.neg) != old(y.neg)
 //@   onpanic[valid,C04,C08] valid(z)
 
@@ -710,10 +713,13 @@ package decimal
 //@        roundspec(z, old(addmag(x, y, x.neg != y.neg))*p10(gs), gL, old(addq(x, y)) + 19*gL - gs, false)
 //@   hint[after:uadd#1] bind(gL, ghost_gL)
 //@   hint[after:uadd#1] bind(gs, ghost_gs)
+//@   hint[after:uadd#1] assert(old(addmag(x, y, x.neg != y.neg)) == old(addsum(x, y)))
 //@   hint[after:usub#1] bind(gL, ghost_gL)
 //@   hint[after:usub#1] bind(gs, ghost_gs)
+//@   hint[after:usub#1] assert(old(addmag(x, y, x.neg != y.neg)) == old(subdiff(x, y)))
 //@   hint[after:usub#2] bind(gL, ghost_gL)
 //@   hint[after:usub#2] bind(gs, ghost_gs)
+//@   hint[after:usub#2] !old(abseq(x, y)) ==> assert(old(addmag(x, y, x.neg != y.neg)) == old(subdiff(y, x)))
 //@   panics[nan,C04] old(x.form) == inf && old(y.form) == inf && old(x.neg) == old(y.neg)
 //@   onpanic[valid,C04,C08] valid(z)
 
